@@ -160,7 +160,7 @@ func (r *DecodeResult) trunc(n int) {
 		return
 	}
 	if cap(r.closers) > n {
-		r.closers = make([]*DecodeResult, n)
+		r.closers = make([]*DecodeResult, 0, n)
 	}
 	for i := range r.flatData {
 		r.flatData[i].trunc(n)
